@@ -56,6 +56,9 @@ def run(ctx):
         nl = ctx.rng.randint(1, 5)
         lenv = ctx.rng.choice(envs)
         names = ['p:%d' % j for j in range(ctx.rng.randint(1, 6))]
+        if ctx.rng.random() < 0.35:
+            # any string is a rule name: the empty one, blanks, JSON / YAML keywords, quotes, non-BMP characters
+            names[ctx.rng.randrange(len(names))] = ctx.rng.choice(['', ' ', '0', 'null', 'true', '~', 'a b', 'é', 'p:"q"', '\\', 'k\tv', '🔑:open', 'x' * 90, '#c', '- d', '{e}'])
         leaves = list(range(1, nl + 1))
         rules_in = dict(lenv.rules(leaves))
         toks_of = {}
